@@ -68,6 +68,15 @@ func c01Scenario(r *rand.Rand, i int) relayScenario {
 		}
 		sc.Consumers = append(sc.Consumers, p)
 	}
+	if i%8 == 5 {
+		// a second publisher takes over the name while consumers stay: joiners that arrive between
+		// the two (placed by the Run function at the exact boundary) must get a run of the second
+		// publisher's messages only
+		sh2 := sh
+		sh2.Name, sh2.Gops, sh2.HdrChangeAt = "republish", 2+r.Intn(3), 0
+		sc.More = []gen.Shape{sh2}
+		sc.Conf.RecFlv = false
+	}
 	return sc
 }
 
@@ -269,12 +278,19 @@ func init() {
 		NumCases:    func(tier string, seed int64) int { return c01Sizes(tier) },
 		CaseTimeout: func(string) time.Duration { return 3 * time.Minute },
 		Rule: "one case = one whole-server scenario: seeded config (rtmp gop_num 0..3 × per-GOP cap {0,1,3,10} × merge_write_size {0,1,1024,8192,65536}, flv gop, recording, relay push to a stub target), a reference RTMP publisher with its own chunk size and header formats sending 60–400 tagged messages (A/V/metadata with and without @setDataFrame, zero-length messages, lengths around multiples of 4096 and of the publisher's chunk size, timestamps across 0xFFFFFF / 2^32 / non-monotonic), 3–7 RTMP / HTTP-FLV / WS-FLV consumers joining and leaving at seeded message indices (exact admission index via the stream hook's processed-count clock). " +
-			"oracle per consumer: every item matches a published message (content hash), same type and ms timestamp, items published after admission form one contiguous in-order run without duplicates that starts no later than the first deliverable key frame and ends at the publisher's last message (RTMP: minus < merge_write_size). cell = consumer kind × config cell × join class.",
+			"one case in eight adds a second publisher taking over the name, with RTMP/FLV/WS-FLV joiners placed exactly between the two: none of their items may be a message of the first publisher. oracle per consumer: every item matches a published message (content hash), same type and ms timestamp, items published after admission form one contiguous in-order run without duplicates that starts no later than the first deliverable key frame and ends at the publisher's last message (RTMP: minus < merge_write_size). cell = consumer kind × config cell × join class.",
 		Assumptions: []string{"reference RTMP client/chunk codec, FLV and WebSocket parsers (harness/ref)", "publisher is paced so that no 1024-entry consumer queue can fill (no back-pressure)",
 			"the stream hook's OnMsg is called inside lal's fan-out critical section (read from the code); used only as a clock"},
 		MinCells: 10,
 		Run: func(c *fw.Ctx, i int) {
 			sc := c01Scenario(c.Rng, i)
+			boundary := -1
+			if len(sc.More) > 0 {
+				boundary = len(gen.BuildAt(c.SubRng("relay"), 1, sc.Shape, 0))
+				for k, kd := range []string{"rtmp", "flv", "wsflv", "rtmp", "flv"} {
+					sc.Consumers = append(sc.Consumers, consumerPlan{Kind: kd, JoinAt: boundary + []int{0, 0, 0, 1, 2}[k], LeaveAt: -1})
+				}
+			}
 			c.Describe("%v", scenarioDesc(sc))
 			res := runRelay(c, sc, c.SubRng("relay"))
 			if res.Err != "" {
@@ -285,6 +301,26 @@ func init() {
 				c.Violate("push/never-attached", fmt.Sprintf("relay push target never received a publish although a publisher was accepted | %v", scenarioDesc(sc)), nil)
 			}
 			for _, rec := range res.Consumers {
+				if boundary >= 0 {
+					// only the consumers that joined the second publisher are judged here (what the
+					// others see across the hand-over is C16's subject)
+					if rec.JoinK < boundary || !rec.Admitted {
+						c.Count("republish_consumers_not_judged", 1)
+						continue
+					}
+					foreign := false
+					for n, it := range rec.Items {
+						if it.Idx >= 0 && it.Idx < boundary {
+							c.Violate("foreign-publisher/"+rec.Kind, fmt.Sprintf("item %d is message %d of the previous publisher (the current one's messages start at %d); consumer joined at %d | scenario=%v", n, it.Idx, boundary, rec.JoinK, scenarioDesc(sc)), nil)
+							foreign = true
+							break
+						}
+					}
+					if foreign {
+						continue
+					}
+					c.Count("republish_joiners_judged", 1)
+				}
 				c01Judge(c, sc, &res, rec, "")
 				jc := "pre-publisher"
 				if rec.Plan.JoinAt >= 0 {
